@@ -126,7 +126,7 @@ def parse_function(text, kind="getp"):
             continue
         break
     tail = lines[i:]
-    if kind == "getp":
+    if kind in ("getp", "member"):
         return dict(ops=ops, c=0, w=[]) if len(tail) == 1 and _RE_RET.match(tail[0]) else None
     if kind in ("get", "typeid"):
         m = _RE_GET.match(tail[0]) if len(tail) == 1 else None
@@ -187,7 +187,7 @@ def real_programs(cls, tx, target, kinds=None):
         if not ok:
             continue
         for src, kernel in capi.methods_from_path(cls, path, default_conf):
-            m = None if kernel is None else re.match(re.escape(cls._c_type) + r"_(getp|get|set|len|typeid)\d*(_|$)", kernel.c_name)
+            m = None if kernel is None else re.match(re.escape(cls._c_type) + r"_(getp|get|set|len|typeid|member)\d*(_|$)", kernel.c_name)
             if not m or (kinds and m.group(1) not in kinds):
                 continue
             text = src if target == "cpu_serial" else specialize_source(src, specialize_for=target)
